@@ -267,7 +267,10 @@ SIGN_RULE = ("sign profile (by shape; thorough adds 600 random messages): every 
              "harness used are inputs of the model). On the implementation alone: two transactions whose messages differ (type URL or "
              "protobuf bytes) while every other parameter is equal must not share their sign bytes; collisions are classified by the pair "
              "of kinds or, within a kind, by whether the two messages become equal after the two known JSON normalisations; only messages that pass "
-             "ValidateBasic take part (each kind is also offered with every field emptied in turn). aol profile: about 4% of the otherwise "
+             "ValidateBasic take part (each kind is also offered with every field emptied in turn, with every field changed in turn to another "
+             "admissible value of the same length, with neighbouring fields exchanged, and twice in one transaction as [a,b], [c,b], [b,a]); what a "
+             "message returned as its sign bytes must not change when a later message's are computed, and computing a transaction's sign "
+             "bytes twice must give the same bytes (C14-signbytes-not-stable). aol profile: about 4% of the otherwise "
              "acceptable transactions carry signatures that are not over them (one byte flipped, or made over the same messages with another "
              "memo): they must be refused (C14-signature-not-bound)")
 prop(id="C14", vfile="Properties/C14.v",
